@@ -1,5 +1,7 @@
 import RtenVerif.Lemmas.ExpBits
 import Mathlib.Analysis.Complex.Exponential
+import Mathlib.Analysis.Complex.ExponentialBounds
+import Mathlib.Tactic.NormNum
 import Mathlib.Tactic.FieldSimp
 import Mathlib.Tactic.Ring
 import Mathlib.Tactic.Positivity
@@ -137,6 +139,70 @@ example : expSelect .posInf = .inf ∧ expSelect .negInf = .zero ∧
     expSelect (.fin (104 * scale)) = .inf ∧ expSelect (.fin (-104 * scale)) = .zero ∧
     expSelect (.fin 0) = .core ∧ expSelect (.fin (104 * scale - 1)) = .core := by
   decide +kernel
+
+/-! ### value statements: the selects return the *correctly rounded IEEE result* -/
+
+/-- **C19.T2h** special inputs, whatever the arithmetic part produced (`core` is arbitrary —
+for `±∞` the real arithmetic yields NaN from `∞ − ∞`): `exp(+∞) = +∞`, `exp(−∞) = 0`, and a NaN
+input yields NaN as soon as the arithmetic propagates NaN (IEEE). -/
+theorem c19_exp_special_values (core : FVal → FRes) :
+    expValue core .posInf = .inf ∧ expValue core .negInf = .zero ∧
+    (core .nan = .nan → expValue core .nan = .nan) := by
+  refine ⟨rfl, rfl, ?_⟩
+  intro h
+  show core .nan = .nan
+  exact h
+
+theorem exp_104_gt : (2 : ℝ) ^ 150 < Real.exp 104 := by
+  have h1 : Real.exp 104 = Real.exp 1 ^ 104 := by
+    have := Real.exp_nat_mul 1 104
+    simpa using this
+  rw [h1]
+  have h2 : (2.7182818283 : ℝ) ^ 104 < Real.exp 1 ^ 104 :=
+    pow_lt_pow_left₀ Real.exp_one_gt_d9 (by norm_num) (by norm_num)
+  have h3 : (2 : ℝ) ^ 150 < (2.7182818283 : ℝ) ^ 104 := by norm_num
+  exact lt_trans h3 h2
+
+/-- **C19.T2i** the overflow clamp is exact: for every real `x ≥ 104`, `exp x > 2^150 > 2^128`,
+i.e. above every finite f32, so `+∞` *is* the correctly rounded result the select returns. -/
+theorem c19_exp_overflow_correct (x : ℝ) (h : 104 ≤ x) : (2 : ℝ) ^ 128 < Real.exp x := by
+  have h1 : Real.exp 104 ≤ Real.exp x := Real.exp_le_exp.mpr h
+  have h2 : (2 : ℝ) ^ 128 < 2 ^ 150 := by norm_num
+  linarith [exp_104_gt]
+
+/-- **C19.T2j** the underflow clamp is exact: for every real `x ≤ −104`, `exp x < 2^-150`, half
+the smallest subnormal f32, so `0` *is* the correctly rounded (nearest-even) result. The
+threshold is nearly tight: `e^104 / 2^150 ≈ 1.03`. -/
+theorem c19_exp_underflow_correct (x : ℝ) (h : x ≤ -104) : Real.exp x < (2 : ℝ) ^ (-150 : ℤ) := by
+  have h1 : Real.exp x ≤ Real.exp (-104) := Real.exp_le_exp.mpr h
+  have h2 : Real.exp (-104) = (Real.exp 104)⁻¹ := Real.exp_neg 104
+  have h3 : (Real.exp 104)⁻¹ < ((2 : ℝ) ^ 150)⁻¹ :=
+    inv_strictAnti₀ (by positivity) exp_104_gt
+  have h4 : ((2 : ℝ) ^ 150)⁻¹ = (2 : ℝ) ^ (-150 : ℤ) := by
+    rw [zpow_neg]; norm_num
+  rw [h2] at h1
+  rw [← h4]
+  exact lt_of_le_of_lt h1 h3
+
+/-- Model and reals together: a finite input `q·2^-149 ≥ 104` takes the `+∞` select and its
+true exponential exceeds every finite f32; symmetrically for `≤ −104`. -/
+theorem c19_exp_clamps_are_ieee (q : Int) :
+    (q ≥ 104 * scale → expValue (fun _ => .val) (.fin q) = .inf ∧
+        (2 : ℝ) ^ 128 < Real.exp ((q : ℝ) / (scale : ℝ))) ∧
+    (q ≤ -104 * scale → expValue (fun _ => .val) (.fin q) = .zero ∧
+        Real.exp ((q : ℝ) / (scale : ℝ)) < (2 : ℝ) ^ (-150 : ℤ)) := by
+  have hs : (0 : ℝ) < (scale : ℝ) := by exact_mod_cast scale_pos
+  constructor
+  · intro h
+    have hg : geC (.fin q) 104 1 = true := by simp only [geC, decide_eq_true_eq]; omega
+    refine ⟨?_, c19_exp_overflow_correct _ ?_⟩
+    · unfold expValue; rw [c19_exp_overflow _ hg]
+    · rw [le_div_iff₀ hs]; exact_mod_cast h
+  · intro h
+    have hl : leC (.fin q) (-104) 1 = true := by simp only [leC, decide_eq_true_eq]; omega
+    refine ⟨?_, c19_exp_underflow_correct _ ?_⟩
+    · unfold expValue; rw [c19_exp_underflow _ hl]
+    · rw [div_le_iff₀ hs]; exact_mod_cast h
 
 /-- **C19.T2f** `ReducedRangeExp` (`x ≤ 0` by contract): below the cutoff `0`, NaN and
 everything else the arithmetic result — for any cutoff value in the documented bracket. -/
